@@ -29,7 +29,7 @@ def run(chk):
         stats(core.e1_flow(chk, 'scen_tee', 'tee', {'C10'}, gen, 1200, keyfn=keyfn, corpus=corpus, escalate_n=1500))
     else:
         # batches keep the memory of the recorded traces bounded
-        for b in range(12):
+        for b in range(30):
             stats(core.e1_flow(chk, 'scen_tee', 'tee', {'C10'}, gen, 3000, keyfn=keyfn,
                                corpus=corpus if b == 0 else None, escalate_n=3000))
             if chk.violations or chk.corr_breaks:
